@@ -151,13 +151,29 @@ def findlabels_pre_310(code, opc):
 NO_LINE_NUMBER = -128
 
 
-def findlinestarts(code, dup_lines=False):
+def findlinestarts(code, dup_lines=False, version_tuple=None):
     """Find the offsets in a byte code which are start of lines in the source.
 
     Generate pairs (offset, lineno) as described in Python/compile.c.
+
+    ``version_tuple`` is the Python version of the bytecode when that
+    is known (opcode modules pass theirs). The line-number table is
+    decoded the way that version's ``dis.findlinestarts`` does:
+    unsigned line increments before 3.6, and from 3.8 on stopping once
+    the address is past the end of the bytecode. When it is not given,
+    the 3.8/3.9 rules are used.
     """
 
     if hasattr(code, "co_lines"):
+        if version_tuple is not None and version_tuple >= (3, 13):
+            # Taken from 3.13 findlinestarts: None is a valid line number
+            lastline = False
+            for start, _, line in code.co_lines():
+                if lastline is False or line != lastline:
+                    lastline = line
+                    yield start, line
+            return
+
         # Taken from 3.10 findlinestarts
         lastline = None
         for start, _, line in code.co_lines():
@@ -187,6 +203,9 @@ def findlinestarts(code, dup_lines=False):
                 line_deltas = [ord(c) for c in code.co_lnotab[1::2]]
             bytecode_len = len(code.co_code)
 
+            signed_deltas = version_tuple is None or version_tuple >= (3, 6)
+            stop_at_end = version_tuple is None or version_tuple >= (3, 8)
+
             lastlineno = None
             lineno = code.co_firstlineno
             offset = 0
@@ -197,14 +216,14 @@ def findlinestarts(code, dup_lines=False):
                         yield offset, lineno
                         lastlineno = lineno
                         pass
-                    if offset >= bytecode_len:
+                    offset += byte_incr
+                    if stop_at_end and offset >= bytecode_len:
                         # The rest of the ``lnotab byte offsets are past the end of
                         # the bytecode; any line numbers for these have been removed.
                         return
-                    offset += byte_incr
                     pass
-                if line_delta >= 0x80:
-                    # line_deltas is an array of 8-bit *signed* integers
+                if signed_deltas and line_delta >= 0x80:
+                    # from 3.6 line_deltas is an array of 8-bit *signed* integers
                     line_delta -= 0x100
                 lineno += line_delta
             if lineno != lastlineno or (dup_lines and 0 < byte_incr < 255):
